@@ -384,7 +384,8 @@ CLAIMED = {
              "interning_by_string_form_returns_the_requested_label (Intern.v): the weak intern table of PauliLabel.__new__, keyed by the string "
              "form, over every history of constructions and vanishing entries hands out exactly the content asked for; with a colliding key it "
              "would not (interning_by_a_colliding_key_conflates_labels); run against the real constructors on random histories "
-             "(corr_C05_intern.py) and on labels with colliding frozenset hashes.",
+             "(corr_C05_intern.py) and on labels with colliding frozenset hashes. string_form_ignores_the_order_of_construction (LabelSort.v): "
+             "the sorted string form is the same for every order in which the pairs were given.",
         design_ref="DESIGN.md section 4 (C05), 9.2",
         note="Trusted: Coq kernel+vm_compute; Reals axioms + funext; translate/tables.py; correspondence harnesses; scipy's kron "
              "index rule as modelled. Partial: Trotter-Suzuki has no theorem (sweep); the WeakValueDictionary intern table is modelled as a table with entries vanishing at any "
